@@ -136,7 +136,7 @@ pub fn run(args: &Args) -> i32 {
     rep.assume("chunks are built with the reference chunk encoder and turned into Chunk values through Chunk::try_from (the only constructor); chunk decoding itself is C03");
     rep.assume("a 'different payload size' fault demands failure only when the non-final chunks do not all have the same length (with 2 chunks there is a single non-final chunk)");
     let thorough = args.tier == Tier::Thorough;
-    let max_all = if thorough { 7 } else { 5 };
+    let max_all = if thorough { 8 } else { 5 };
 
     let mut broken = ref_pwb_encode(&mk_pwb(3, 1, 4, &[7, 30], 0, 0));
     let n = broken.len();
